@@ -282,6 +282,9 @@ func (s *LinearState) deleteDependencies(ctx *Context, id string) error {
 			Log(WARN, ctx, "LinearState.deleteDependencies", "loop", id)
 			continue
 		}
+		if !namesInDeleteWith(s.Facts[sr.Id].M, id) {
+			continue
+		}
 		if _, err := s.rem(ctx, sr.Id, false); nil != err {
 			return err
 		}
